@@ -344,6 +344,70 @@ def userinput_run(policy):
   return s, box
 
 
+def end_run(how):
+  """a real TestState in RUNNING with one looping watcher is finished through one of the end paths (abort,
+  terminal phase outcome, timeout, normal end) - nothing else happens afterwards: "every change of status is
+  followed by a notification", "no watcher is left blocked forever on a finished test".  Every statement of
+  test_state.py is a scheduling point."""
+  def run(policy):
+    from vf import build, sched
+    import openhtf as htf
+    from openhtf.core import phase_collections, phase_executor, test_descriptor, test_record, test_state
+    s = sched.Sched(policy=policy, max_steps=200000, trace_files=('openhtf/core/test_state.py',))
+    box = dict(seen=[])
+
+    def main():
+      build.reset_process_globals()
+      ph = htf.PhaseOptions(name='only')(lambda test: None)
+      desc = test_descriptor.TestDescriptor(phase_collections.PhaseSequence((ph,)),
+                                            test_record.CodeInfo.uncaptured(), {'config': {}})
+      state = test_state.TestState(desc, 'c18-end-%s' % how, test_descriptor.TestOptions())
+      state.mark_test_started()
+      state.set_status_running()
+
+      def watcher():
+        while True:
+          d, ev = state.asdict_with_event()
+          box['seen'].append(d['status'])
+          if d['status'] == 'COMPLETED':
+            return
+          ev.wait()
+      w = threading.Thread(target=watcher, name='watch')
+      w.start()
+      if how == 'abort':
+        state.abort()
+      elif how == 'stop':
+        state.finalize_from_phase_outcome(phase_executor.PhaseExecutionOutcome(htf.PhaseResult.STOP), 'only')
+      elif how == 'timeout':
+        state.finalize_from_phase_outcome(phase_executor.PhaseExecutionOutcome(None), 'only')
+      else:
+        state.finalize_normally()
+      box['status'] = state._status.name if hasattr(state, '_status') else None
+      w.join()
+      state.close()
+    s.run(main)
+    return s, box
+  return run
+
+
+def end_job(args):
+  sys.argv = sys.argv[:1]
+  how, bound, maxruns = args
+  from vf import build, explore  # noqa: F401
+  threading.excepthook = lambda a: None
+  n, bad = 0, []
+  for picks, decisions, box, failure in explore.explore(end_run(how), bound, max_runs=maxruns):
+    n += 1
+    if failure is not None:
+      if len(bad) < 3:
+        bad.append(('a watcher looping on snapshot-then-wait is left blocked forever on a finished test (end path: %s): the '
+                    'change of status to COMPLETED is not followed by a notification' % how,
+                    dict(scenario='end', how=how, schedule=picks, failure=type(failure).__name__)))
+    elif box['seen'][-1:] != ['COMPLETED']:
+      bad.append(('a looping watcher did not observe the final COMPLETED state', dict(scenario='end', how=how, schedule=picks)))
+  return n, bad
+
+
 def userinput_job(bound):
   sys.argv = sys.argv[:1]
   from vf import explore
@@ -405,6 +469,14 @@ def main(chk):
     for sig, det in bad_ui:
       chk.violation(sig, det)
     chk.log('%d schedules of the UserInput plug' % n_ui)
+    ends = pool.map(end_job, [(how, 1 if quick else 2, 3000 if quick else 30000) for how in ('abort', 'stop', 'timeout', 'normal')])
+    for n_e, bad_e in ends:
+      chk.traces += n_e
+      chk.nontrivial += n_e
+      for sig, det in bad_e:
+        chk.violation(sig, det)
+    chk.tlc_runs.append(dict(name='dfs end of run with a looping watcher (4 end paths)', schedules=sum(n for n, _ in ends)))
+    chk.log('%d schedules of the end of a run with a looping watcher' % sum(n for n, _ in ends))
     nseeds = 150 if quick else 1500
     seeds = [chk.seed * 100000 + i for i in range(nseeds)]
     outs = pool.map(whole_runs, [seeds[i::14] for i in range(14)])
